@@ -324,6 +324,11 @@ def check_c03(res, tier, rng):
         # floats whose shortest rendering is short: nearest floats of m x 10^q, m of 1-7 digits
         for _ in range(n // 3):
             bl.append(rn_decimal(fmt, str(rng.range(1, 10 ** rng.range(1, 7))), '', rng.range(klo, khi)))
+        # the floats of the fast-path fence posts (disguised range, products around 2^p / 2^64): their
+        # shortest renderings are exactly those short decimals
+        for c in g_fast(rng, scale(tier, 600, 6000)):
+            if c.fmt == fmt and is_valid(c.i, c.f, c.e):
+                bl.append(rn_decimal(fmt, c.i, c.f, c.e))
         bl = [b for b in bl if b <= max_finite(fmt)]
         rend = render_floats(fmt, bl)
         for b, r in zip(bl, rend):
